@@ -715,8 +715,8 @@ FROM
 	JOIN pragma_table_list(sqlite_master.name)
 WHERE
 	sqlite_master.type = 'table'
-	AND sqlite_master.name NOT LIKE 'sqlite_%'
-	AND sqlite_master.name NOT LIKE 'libsql_%'
+	AND sqlite_master.name NOT LIKE 'sqlite\_%' ESCAPE '\'
+	AND sqlite_master.name NOT LIKE 'libsql\_%' ESCAPE '\'
 `
 	// Query to list table information.
 	columnsQuery = "SELECT `name`, `type`, (not `notnull`) AS `nullable`, `dflt_value`, (`pk` <> 0) AS `pk`, `hidden` FROM pragma_table_xinfo('%s') ORDER BY `cid`"
